@@ -1,4 +1,5 @@
 import AFV.Lemmas.SearchExamples
+import AFV.Lemmas.MapspaceRef
 /-!
 # C01 — the mapper returns an optimum of the whole mapspace (abstract part only)
 
@@ -69,5 +70,215 @@ example : best [1, 0] (ffm opsChain 10 exTables) = some 7 ∧
 -- with a capacity that nothing fits, both sides are `none`
 example : best [1, 0] (ffm opsChain 5 exTables) = none ∧
     best [1, 0] (validCombos opsChain 5 exTables) = none := by decide
+
+/-! ## The reference mapspace (`AFV/Spec/Mapspace.lean`): the enumerator misses nothing, and `refBest` is the optimum
+
+`inSpace s m` is the declarative description of the mapspace of a single-Einsum spec (storage placements allowed by
+keep / may_keep and the memory hierarchy, any loop order, every perfectly factorising tile chain, plus the one
+validity rule of the cost model); `all s` is the enumerator the native driver runs (through `foldAll`). -/
+section Mapspace
+open AFV.Mapspace AFV.Nest
+
+/-- **`all_sound`**: everything the enumerator produces lies in the described space. -/
+theorem all_sound (s : SpecDesc) {m : Mapping Nat} (h : m ∈ all s) : inSpace s m = true :=
+  (mem_all_iff s m).1 h
+
+/-- **`all_complete`**: the enumerator misses no mapping of the described space — for every spec, no size bound. -/
+theorem all_complete (s : SpecDesc) {m : Mapping Nat} (h : inSpace s m = true) : m ∈ all s :=
+  (mem_all_iff s m).2 h
+
+/-- The fold the driver runs (nothing materialised) is `List.foldl` over `all s`. -/
+theorem foldAll_eq_foldl {β : Type} (s : SpecDesc) (f : β → Mapping Nat → β) (init : β) :
+    foldAll s f init = (all s).foldl f init := foldAll_eq s f init
+
+/-- … and the partial scans used to spread a spec over several processes fold over `allPart`. -/
+theorem foldAllPart_eq_foldl {β : Type} (s : SpecDesc) (i k : Nat) (f : β → Mapping Nat → β) (init : β) :
+    foldAllPart s i k f init = (allPart s i k).foldl f init := foldAllPart_eq s i k f init
+
+/-- **`refBest_le`**: no valid mapping of the mapspace (in the space, evaluable, within capacity) is better than
+`refBest`, for energy, latency and EDP. -/
+theorem refBest_le (metric : Metric) (s : SpecDesc) {b : Rat} (hb : refBest metric s = some b)
+    {m : Mapping Nat} (hm : inSpace s m = true) {c : Cost} (hc : cost s m = some c) (hf : c.fits = true) :
+    b ≤ metric.eval c :=
+  (minQ_eq_some hb).2 c (mem_validCosts.2 ⟨m, all_complete s hm, hc, hf⟩)
+
+/-- `refBest` is attained by a valid mapping of the mapspace. -/
+theorem refBest_attained (metric : Metric) (s : SpecDesc) {b : Rat} (hb : refBest metric s = some b) :
+    ∃ m c, inSpace s m = true ∧ cost s m = some c ∧ c.fits = true ∧ metric.eval c = b := by
+  obtain ⟨c, hc, hv⟩ := (minQ_eq_some hb).1
+  obtain ⟨m, hm, hcost, hfit⟩ := mem_validCosts.1 hc
+  exact ⟨m, c, all_sound s hm, hcost, hfit, hv⟩
+
+/-- `refBest = none` exactly when the mapspace has no valid mapping. -/
+theorem refBest_none_iff (metric : Metric) (s : SpecDesc) :
+    refBest metric s = none ↔ ∀ m c, inSpace s m = true → cost s m = some c → c.fits = false := by
+  unfold refBest
+  rw [minQ_eq_none]
+  constructor
+  · intro h m c hm hc
+    cases hf : c.fits with
+    | false => rfl
+    | true =>
+      have : c ∈ validCosts s (all s) := mem_validCosts.2 ⟨m, all_complete s hm, hc, hf⟩
+      rw [h] at this; cases this
+  · intro h
+    apply List.eq_nil_iff_forall_not_mem.2
+    intro c hc
+    obtain ⟨m, hm, hcost, hfit⟩ := mem_validCosts.1 hc
+    rw [h m c (all_sound s hm) hcost] at hfit
+    cases hfit
+
+
+/-- The parts a scan is split into (storage choices number i, i+k, …) together cover the whole space. -/
+theorem allPart_cover (s : SpecDesc) {k : Nat} (hk : 0 < k) (m : Mapping Nat) :
+    inSpace s m = true ↔ ∃ i, i < k ∧ m ∈ allPart s i k := by
+  rw [← mem_all_iff s m]; exact mem_all_iff_parts s hk m
+
+/-! ### Two Einsums sharing an intermediate tensor (fused or not)
+
+`all2 S` = the pairs of per-Einsum members that agree on the intermediate tensor's backing level and on the fused
+loops above it (≤ 1 per rank variable).  The cost of a pair (`cost2`) ASSUMES additivity of energy / latency and
+"peak usage = holders of the shared prefix + max over the two branches"; see `AFV/Spec/Mapspace.lean`. -/
+
+/-- The fused enumerator is exactly: both halves in their Einsum's space, and compatible. -/
+theorem all2_iff (S : Spec2) (m0 m1 : Mapping Nat) :
+    (m0, m1) ∈ all2 S ↔ inSpace S.s0 m0 = true ∧ inSpace S.s1 m1 = true ∧ compatible S m0 m1 = true :=
+  mem_all2_iff S m0 m1
+
+/-- `refBest2` is a lower bound of the (assumed-additive) objective of every valid compatible pair, and is attained. -/
+theorem refBest2_le (metric : Metric) (S : Spec2) {b : Rat} (hb : refBest2 metric S = some b)
+    {m0 m1 : Mapping Nat} (h0 : inSpace S.s0 m0 = true) (h1 : inSpace S.s1 m1 = true)
+    (hcomp : compatible S m0 m1 = true) {c : Cost} (hc : cost2 S (m0, m1) = some c) (hf : c.fits = true) :
+    b ≤ metric.eval c :=
+  (minQ_eq_some hb).2 c (mem_validCosts2.2 ⟨(m0, m1), (mem_all2_iff S m0 m1).2 ⟨h0, h1, hcomp⟩, hc, hf⟩)
+
+theorem refBest2_attained (metric : Metric) (S : Spec2) {b : Rat} (hb : refBest2 metric S = some b) :
+    ∃ m0 m1 c, inSpace S.s0 m0 = true ∧ inSpace S.s1 m1 = true ∧ compatible S m0 m1 = true ∧
+      cost2 S (m0, m1) = some c ∧ c.fits = true ∧ metric.eval c = b := by
+  obtain ⟨c, hc, hv⟩ := (minQ_eq_some hb).1
+  obtain ⟨⟨m0, m1⟩, hp, hcost, hfit⟩ := mem_validCosts2.1 hc
+  obtain ⟨h0, h1, hcomp⟩ := (mem_all2_iff S m0 m1).1 hp
+  exact ⟨m0, m1, c, h0, h1, hcomp, hcost, hfit, hv⟩
+
+
+/-- What the driver's two-Einsum scan enumerates — every within-capacity combination of a half (the data `combine`
+looks at) of a member of Einsum 0's space with a half of a member of Einsum 1's space — is exactly the set of valid costs of
+the fused space. -/
+theorem validCosts2_via_halves (S : Spec2) (c : Cost) :
+    c ∈ validCosts2 S (all2 S) ↔
+      ∃ a ∈ halves S.s0 S.x0, ∃ b ∈ halves S.s1 S.x1, combine S.s0 a b = some c ∧ c.fits = true :=
+  mem_validCosts2_halves S c
+
+
+/-! ### A defect of the real mapper that this check found, delimited
+
+On the unchanged tree the real `map_workload_to_arch` misses mappings that fill a memory EXACTLY when the memory's size is
+not a power of two: `make_tile_shapes.get_tile_shape_choices` evaluates the usage formula of a pmapping in float32 and tests
+`usage <= 1`; a usage of 7/7 comes out as 1.0000001192092896 and the pmapping is dropped, although `evaluate_mapping`
+accepts the same mapping with usage 1.0.  The mapper then returns the optimum over the mappings that fill no memory
+exactly (`refBestStrict`).  The model and the reference stay faithful to the property (capacity is `usage ≤ 1`):
+`exactly_full_counterexample` is the concrete witness (replayed on the real code from `corpus/C01/`),
+`refBest_eq_strict_partial` says where the two optima coincide, i.e. where the defect cannot show. -/
+
+/-- `refBest` is never above the optimum over the strictly fitting mappings. -/
+theorem refBest_le_strict (metric : Metric) (s : SpecDesc) {b b' : Rat} (hb : refBest metric s = some b)
+    (hb' : refBestStrict metric s = some b') : b ≤ b' := by
+  obtain ⟨c, hc, hv⟩ := (minQ_eq_some hb').1
+  have hc' : c ∈ validCosts s (all s) := (List.mem_filter.1 hc).1
+  rw [← hv]
+  exact (minQ_eq_some hb).2 c hc'
+
+/-- **`refBest_eq_strict_partial`**: if no valid mapping of the mapspace fills a memory exactly, the optimum over the
+strictly fitting mappings (what the real mapper was observed to return) IS the optimum. -/
+theorem refBest_eq_strict_partial (metric : Metric) (s : SpecDesc)
+    (h : ∀ c ∈ validCosts s (all s), c.fitsStrict = true) : refBestStrict metric s = refBest metric s := by
+  unfold refBestStrict refBest validCostsStrict
+  rw [List.filter_eq_self.2 h]
+
+/-- The spec of the witness: `Z[a,b] = X[a,c]·Y[c,b]`, all bounds 2, 8-bit values, MainMemory (50 per bit) above a
+GlobalBuffer of 56 bits = 7 values (1 per bit), compute energy 1; this is `corpus/C01/exactly-full-float32.json` as the
+repo's front end describes it. -/
+def fullSpec : SpecDesc :=
+  { arch := { levels := [{ (Level.dflt : Level Rat) with
+                            read := { energy := 50, throughput := 0, bpa := some 1 }
+                            write := { energy := 50, throughput := 0, bpa := some 1 } },
+                         { (Level.dflt : Level Rat) with
+                            size := 56
+                            read := { energy := 1, throughput := 0, bpa := some 1 }
+                            write := { energy := 1, throughput := 0, bpa := some 1 } }],
+              compute := { energy := 1, throughput := 1, leak := 0, actionsScale := 1, skipInitial := true } }
+    bounds := [2, 2, 2]
+    tensors := [{ rvs := [0, 2], isOutput := false, bpv := 8 }, { rvs := [2, 1], isOutput := false, bpv := 8 },
+                { rvs := [0, 1], isOutput := true, bpv := 8 }]
+    nInstances := 1
+    rules := [{ keep := [0, 1, 2], mayKeep := [0, 1, 2] }, { keep := [], mayKeep := [0, 1, 2], keepNotIn := some 0 }]
+    infSize := [true, false]
+    forceOrder := true }
+
+/-- X and Y whole in the buffer (4 + 2 values after lowering Y through `b`), one value of Z: 7 of 7 values. -/
+def fullMapping : Mapping Nat :=
+  [.storage 0 [0] true, .storage 0 [1] true, .storage 0 [2] true, .storage 1 [0] true, .storage 1 [1] true,
+   .loop 1 1, .storage 1 [2] true, .loop 0 1, .loop 2 1, .compute]
+
+/-- **`exactly_full_counterexample`**: a mapping of the described space that the model evaluates to energy 5128 with the
+buffer exactly full (usage = 1: it fits, but not strictly).  The real mapper returns 6632 for this spec. -/
+theorem exactly_full_counterexample :
+    inSpace fullSpec fullMapping = true ∧
+    (cost fullSpec fullMapping).map (fun c => (c.energy, c.usage, c.fits, c.fitsStrict)) =
+      some (5128, [0, 1], true, false) := by decide +kernel
+
+/-- Hence the optimum of the witness spec is at most 5128 (the real mapper's 6632 is not optimal). -/
+theorem exactly_full_counterexample_bound {b : Rat} (hb : refBest .energy fullSpec = some b) : b ≤ 5128 := by
+  have h := exactly_full_counterexample
+  cases hc : cost fullSpec fullMapping with
+  | none => rw [hc] at h; simp at h
+  | some c =>
+    rw [hc] at h
+    simp only [Option.map_some, Option.some.injEq, Prod.mk.injEq] at h
+    have := refBest_le .energy fullSpec hb h.1 hc h.2.2.2.1
+    simpa [Metric.eval, h.2.1] using this
+
+/-! ### Non-vacuity: a 2-level matmul-like spec with bounds (2, 2), two tensors -/
+
+/-- Two rank variables of bound 2, tensor 0 indexed by both, tensor 1 (output) by the first; MainMemory keeps both,
+a buffer of 64 bits may keep either. -/
+def exSpec : SpecDesc :=
+  { arch := { levels := [{ (Level.dflt : Level Rat) with read := { energy := 10, throughput := 1 }, write := { energy := 10, throughput := 1 } },
+                         { (Level.dflt : Level Rat) with size := 64, read := { energy := 1, throughput := 1 }, write := { energy := 1, throughput := 1 } }],
+              compute := { energy := 1, throughput := 1, leak := 0, actionsScale := 1, skipInitial := true } }
+    bounds := [2, 2]
+    tensors := [{ rvs := [0, 1], isOutput := false, bpv := 8 }, { rvs := [0], isOutput := true, bpv := 8 }]
+    nInstances := 1
+    rules := [{ keep := [0, 1], mayKeep := [] }, { keep := [], mayKeep := [0, 1] }]
+    infSize := [true, false]
+    forceOrder := true }
+
+example : (all exSpec).length = 38 := by decide +kernel
+example : inSpace exSpec [.storage 0 [0] true, .storage 0 [1] true, .loop 0 1, .storage 1 [1] true, .loop 1 1, .compute] = true := by
+  decide +kernel
+-- a level-0 holder below a loop, a one-iteration loop and a missing tensor are all outside the space
+example : inSpace exSpec [.storage 0 [0] true, .loop 0 1, .storage 0 [1] true, .loop 1 1, .compute] = false := by decide +kernel
+example : inSpace exSpec [.storage 0 [0] true, .storage 0 [1] true, .loop 0 2, .loop 0 1, .loop 1 1, .compute] = false := by
+  decide +kernel
+example : inSpace exSpec [.storage 0 [0] true, .loop 0 1, .loop 1 1, .compute] = false := by decide +kernel
+
+/-- The same workload on a small, slow buffer (24 bits, 1 bit/cycle) under a faster main memory: capacity binds (36 of 38
+members fit) and energy, latency and EDP are minimised by three different mappings. -/
+def exLevel (sz e thr : Rat) : Level Rat :=
+  { (Level.dflt : Level Rat) with size := sz, read := { energy := e, throughput := thr }, write := { energy := e, throughput := thr } }
+
+def exSpec2 : SpecDesc :=
+  { exSpec with
+    arch := { levels := [exLevel 1 10 4, exLevel 24 1 1],
+              compute := { energy := 1, throughput := 8, leak := 0, actionsScale := 1, skipInitial := true } } }
+
+example : (validCosts exSpec2 (all exSpec2)).length = 36 := by decide +kernel
+example : refBest .energy exSpec2 = some 548 ∧ refBest .latency exSpec2 = some 20 ∧ refBest .edp exSpec2 = some 16080 := by
+  decide +kernel
+-- so `refBest_le` / `refBest_attained` are applicable with b = 548 (hypothesis `hb` holds by the line above)
+example : ∃ m c, inSpace exSpec2 m = true ∧ cost exSpec2 m = some c ∧ c.fits = true ∧ Metric.energy.eval c = 548 :=
+  refBest_attained .energy exSpec2 (by decide +kernel)
+
+end Mapspace
 
 end AFV.C01
